@@ -441,7 +441,8 @@ ENUM_VALUE_POOL = {
     "plain": ["RED", "GREEN", "lower_case", "MixedCase", "A1"],
 }
 # names the enum module cannot define as members under their own name (finding C04-F31): stream enum_reserved only
-ENUM_RESERVED = ["mro", "_order_", "_ignore_", "_missing_", "_name_", "_value_", "_generate_next_value_", "_sunder_"]
+ENUM_RESERVED = ["mro", "_order_", "_ignore_", "_missing_", "_name_", "_value_", "_generate_next_value_", "_sunder_",
+                 "_A_", "_1_", "_x_"]
 
 
 def is_sunder(name: str) -> bool:
@@ -480,7 +481,7 @@ def references(seed: int, rng: random.Random, reserved: bool = False) -> Scenari
     color = values(rng.randint(3, 5))
     sort = values(rng.randint(2, 4))
     if reserved:
-        color[rng.randrange(len(color))] = rng.choice(ENUM_RESERVED)
+        color[rng.randrange(len(color))] = rng.choice(ENUM_RESERVED + [random_sunder(rng), random_sunder(rng)])
         if rng.random() < 0.5:
             sort[rng.randrange(len(sort))] = rng.choice(ENUM_RESERVED)
         color = list(dict.fromkeys(color))
@@ -684,3 +685,158 @@ def nested_composite_depth(defn) -> int:
                 best = max(best, depth(sel.selection_set))
         return best
     return depth(defn.selection_set)
+
+
+# ------------------------------------------------------- types used in exactly one place, with pruning switched on
+def exclusive_types(sc: Scenario, rng: random.Random) -> Scenario | None:
+    """include_all_enums = include_all_inputs = false, and probe types each referenced from exactly ONE place of
+    ONE operation, which sits first / in the middle / last in document order: an enum only as a variable type, an
+    enum only as a list variable type, an input only as a variable type (with an enum only inside that input), an
+    enum only in a selected result field, an enum only in a field of a fragment only this operation spreads.
+    Every module that imports such a type must find it in the pruned enums / input types module."""
+    ops, frs = _defs(sc.queries)
+    kinds = rng.sample(["enum_var", "enum_list_var", "input_var", "enum_result", "enum_fragment"], rng.randint(1, 3))
+    where = rng.choice(["first", "middle", "last", "last", "only"])
+    sdl = sc.sdl + """
+enum XVarEnum { VA VB }
+enum XListEnum { LA LB }
+enum XInnerEnum { IA IB }
+enum XResultEnum { RA RB }
+enum XFragEnum { FA FB }
+input XOnlyInput { inner: XInnerEnum = IA, n: Int }
+type XProbe { r: XResultEnum, f: XFragEnum, n: Int }
+"""
+    sdl = sdl.replace("type Query {", "type Query {\n  xProbe(e: XVarEnum, es: [XListEnum!], i: XOnlyInput): XProbe", 1)
+    vs, args, sel, extra_frs = [], [], ["n"], []
+    if "enum_var" in kinds:
+        vs.append("$e: XVarEnum"); args.append("e: $e")
+    if "enum_list_var" in kinds:
+        vs.append("$es: [XListEnum!]"); args.append("es: $es")
+    if "input_var" in kinds:
+        vs.append("$i: XOnlyInput"); args.append("i: $i")
+    if "enum_result" in kinds:
+        sel.append("r")
+    if "enum_fragment" in kinds:
+        sel.append("...XProbeFrag"); extra_frs.append("fragment XProbeFrag on XProbe { f }")
+    op = (f"query XProbeOp{'(' + ', '.join(vs) + ')' if vs else ''} "
+          f"{{ xProbe{'(' + ', '.join(args) + ')' if args else ''} {{ {' '.join(sel)} }} }}")
+    texts = [print_ast(d) for d in ops]
+    if where == "only":
+        texts = [op]
+        frs = []
+    else:
+        pos = {"first": 0, "middle": len(texts) // 2, "last": len(texts)}[where]
+        texts.insert(pos, op)
+    q = "\n\n".join(texts + [print_ast(f) for f in frs] + extra_frs) + "\n"
+    return _derive(sc, "exclusive_types", sdl=sdl, queries=q,
+                   config={"include_all_enums": False, "include_all_inputs": False},
+                   notes={"exclusive_kinds": kinds, "exclusive_position": where})
+
+
+# ------------------------------------------------------------------------------- conditional __typename everywhere
+def conditional_typename(sc: Scenario, rng: random.Random) -> Scenario | None:
+    """`__typename` under @include/@skip (with literal conditions, so fragments stay variable-free): directly on an
+    explicit __typename, or through an enclosing inline fragment without type condition, at object, interface and
+    union positions of operations and fragments."""
+    schema = schema_of(sc.sdl)
+    doc = parse(sc.queries, no_location=True)
+    ti = TypeInfo(schema)
+    count = {"abstract": 0, "object": 0}
+    forms = ["__typename @include(if: true)", "__typename @skip(if: false)", "... @include(if: true) { __typename }",
+             "... @skip(if: false) { __typename }"]
+
+    class V(Visitor):
+        def enter_selection_set(self, node, *_):
+            parent = ti.get_parent_type()
+            if parent is None or parent.name.startswith("__") or parent in (schema.query_type, schema.mutation_type,
+                                                                            schema.subscription_type):
+                return None
+            kind = "abstract" if is_abstract_type(parent) else "object"
+            if rng.random() < (0.8 if kind == "abstract" else 0.3):
+                form = rng.choice(forms)
+                new = parse("{ " + form + " }", no_location=True).definitions[0].selection_set.selections[0]
+                sels = [s for s in node.selections
+                        if not (isinstance(s, FieldNode) and s.name.value == "__typename" and rng.random() < 0.5)]
+                node.selections = tuple([new] + sels) if rng.random() < 0.5 else tuple(sels + [new])
+                count[kind] += 1
+            return None
+
+    visit(doc, TypeInfoVisitor(ti, V()))
+    if count["abstract"] == 0:
+        return None
+    return _derive(sc, "conditional_typename", queries=_print(list(doc.definitions)),
+                   notes={"conditional_typename_positions": dict(count)})
+
+
+# ------------------------------------------------------- a fragment that is only another fragment's dependency
+DEP_SDL = """
+scalar DateTime
+scalar Decimal
+enum Sort { ASC DESC }
+enum Color { RED GREEN }
+interface Node { id: ID! }
+type Item implements Node { id: ID! sort: Sort color: Color at: DateTime amount: Decimal parent: Item name: String }
+type Other implements Node { id: ID! name: String }
+type Query { items: [Item!]! item: Item node: Node }
+"""
+
+
+def dependent_fragments(seed: int, rng: random.Random) -> Scenario | None:
+    """Fragment F is spread directly only where it is UNPACKED (under @include/@skip; the `supertype` variant spreads
+    it at an interface position instead, where the variant class takes it as a base), so the package excludes it; fragment G, which is generated (used as a base by an operation, or unused), spreads F
+    as its own base - F comes back into the fragments module only as G's dependency.  F needs imports nobody else
+    needs: a @mixin on its definition or on one of its fields, an enum, a custom scalar."""
+    needs = rng.sample(["mixin_def", "mixin_field", "enum", "scalar"], rng.randint(1, 3))
+    body = ["id"]
+    if "enum" in needs:
+        body.append("sort")
+    if "scalar" in needs:
+        body += ["at", "amount"]
+    if "mixin_field" in needs:
+        body.append('parent @mixin(from: "mixins_impl", import: "MixinB") { id }')
+    f_dir = ' @mixin(from: "mixins_impl", import: "MixinA")' if "mixin_def" in needs else ""
+    frs = [f"fragment DepF on Item{f_dir} {{ {' '.join(body)} }}"]
+    depth = rng.randint(1, 2)
+    frs.append("fragment DepG on Item { name ...DepF }")
+    top = "DepG"
+    if depth == 2:
+        frs.append("fragment DepH on Item { color ...DepG }")
+        top = "DepH"
+    ops = []
+    g_used = rng.random() < 0.7
+    if g_used:
+        ops.append(f"query UsesTop {{ items {{ ...{top} }} }}")
+    unpack = rng.choice(["conditional", "supertype", "both", "none"])
+    if unpack in ("conditional", "both"):
+        ops.append("query UnpacksCond($c: Boolean!) { item { name ...DepF @include(if: $c) } }")
+    if unpack in ("supertype", "both"):
+        ops.append("query UnpacksSuper { node { id ...DepF } }")
+    if not ops:
+        ops.append("query Plain { item { name } }")
+    defs = ops + frs
+    rng.shuffle(defs)
+    q = "\n\n".join(defs) + "\n"
+    if not valid(DEP_SDL, q):
+        return None
+    from .frag_scen import MIXINS_PY
+
+    sv = rng.choice(["none", "types", "full"])
+    cfg = {"include_all_enums": rng.random() < 0.5}
+    files = {"mixins_impl.py": MIXINS_PY}
+    if sv == "types":
+        cfg["scalars"] = {"DateTime": {"type": "datetime.datetime"}, "Decimal": {"type": "decimal.Decimal"}}
+    elif sv == "full":
+        files["scalars_impl.py"] = SCALARS_IMPL
+        cfg["scalars"] = {"DateTime": {"type": "datetime.datetime", "parse": "scalars_impl.parse_dt",
+                                       "serialize": "scalars_impl.ser_dt"},
+                          "Decimal": {"type": "decimal.Decimal", "parse": "decimal.Decimal", "serialize": "str"}}
+    return Scenario(seed=seed, sdl=DEP_SDL, queries=q, config=cfg, features=("dependent_fragments",), files=files,
+                    notes={"needs": needs, "unpack": unpack, "top_used": g_used, "depth": depth,
+                           "pinned": sorted(cfg)})
+
+
+def random_sunder(rng: random.Random) -> str:
+    """a _sunder_ name: one underscore at each end, 1-4 inner characters, none of the neighbours an underscore"""
+    n = rng.choice([1, 1, 2, 3, 4])
+    inner = "".join(rng.choice("aAzZ019x") for _ in range(n))
+    return "_" + inner + "_"
